@@ -906,3 +906,171 @@ func ruleResultCopy(p *core.Program) []core.Obligation {
 	}
 	return obs
 }
+
+func init() {
+	register(&Rule{ID: "R-EMPTYSERIES", Min: 10, Run: ruleEmptySeries,
+		Doc: "no operator announces a constant empty series list (a zero-length literal returned by Series() or stored into the field Series() returns): consumers size their tables from the announced list and every operator kind can emit samples"})
+	register(&Rule{ID: "R-TABLETS", Min: 2, Run: ruleTableTimestamp,
+		Doc: "every aggregation table records the step's timestamp unconditionally when it aggregates a step vector: the store of vector.T into the table's timestamp dominates every return of aggregate(), so the (possibly empty) result of a step never carries the timestamp of an earlier step"})
+	register(&Rule{ID: "R-POINT0", Min: 2, Run: rulePoint0,
+		Doc: "in the result assembly every read of Points[0] of a result series is dominated by a length test of that Points slice (an announced series may have no points)"})
+
+	mutant(Mutant{Rule: "R-EMPTYSERIES", Name: "noarg-announces-nothing", File: "execution/function/operator.go",
+		Old: "\treturn make([]labels.Labels, 1), nil\n", New: "\treturn []labels.Labels{}, nil\n", Expect: "noArgFunctionOperator"})
+	mutant(Mutant{Rule: "R-EMPTYSERIES", Name: "scalar-announces-nothing", File: "execution/function/operator.go",
+		Old: "\t\t\to.series = make([]labels.Labels, 1)\n", New: "\t\t\to.series = []labels.Labels{}\n", Expect: "functionOperator"})
+	mutant(Mutant{Rule: "R-TABLETS", Name: "vector-table-stale-timestamp", File: "execution/aggregate/vector_table.go",
+		Old: "\tt.timestamp = vector.T\n\tif len(vector.SampleIDs) == 0 {\n\t\tt.hasValue = false\n\t\treturn\n\t}\n\tt.hasValue = true\n", New: "\tif len(vector.SampleIDs) == 0 {\n\t\tt.hasValue = false\n\t\treturn\n\t}\n\tt.hasValue = true\n\tt.timestamp = vector.T\n", Expect: "vectorTable"})
+	mutant(Mutant{Rule: "R-POINT0", Name: "scalar-result-unguarded", File: "engine/engine.go",
+		Old: "if len(series) != 0 && len(series[0].Points) != 0 {", New: "if len(series) != 0 {", Expect: "Exec"})
+}
+
+func ruleEmptySeries(p *core.Program) []core.Obligation {
+	const rule = "R-EMPTYSERIES"
+	var obs []core.Obligation
+	isLabelsList := func(t types.Type) bool {
+		s, ok := t.Underlying().(*types.Slice)
+		return ok && isLabelsType(s.Elem())
+	}
+	emptyLiteral := func(v ssa.Value) bool {
+		switch x := v.(type) {
+		case *ssa.Slice:
+			if al, ok := x.X.(*ssa.Alloc); ok {
+				if arr, ok := al.Type().Underlying().(*types.Pointer).Elem().Underlying().(*types.Array); ok {
+					return arr.Len() == 0
+				}
+			}
+		case *ssa.MakeSlice:
+			if c, ok := core.ConstInt(x.Len); ok {
+				return c == 0 && func() bool { cc, ok := core.ConstInt(x.Cap); return ok && cc == 0 }()
+			}
+		}
+		return false
+	}
+	for _, fn := range p.Funcs {
+		recv := recvNamed(fn)
+		if recv == nil {
+			continue
+		}
+		impl := p.Func(core.Rel(recv.Obj().Pkg().Path()), recv.Obj().Name()+".Series")
+		if impl == nil || !strings.HasPrefix(core.Rel(recv.Obj().Pkg().Path()), "execution") {
+			continue
+		}
+		core.EachInstr(fn, func(b *ssa.BasicBlock, i int, ins ssa.Instruction) {
+			switch x := ins.(type) {
+			case *ssa.Return:
+				if fn != impl {
+					return
+				}
+				rs := core.RetResults(x)
+				if len(rs) == 0 || !isLabelsList(rs[0].Type()) {
+					return
+				}
+				key := fmt.Sprintf("%s.Series return", recv.Obj().Name())
+				bad := false
+				for v := range core.PhiClosure(rs[0]) {
+					if emptyLiteral(v) && core.IsNilConst(rs[len(rs)-1]) {
+						bad = true
+					}
+				}
+				if bad {
+					obs = append(obs, core.Ob(rule, key, p.Pos(x.Pos()), core.FuncName(fn), core.Violated, "Series() announces a constant empty list while Next() emits samples: the consumer sizes its tables from the announcement (Exec rebuilds its series table for every batch and keeps only the last one)"))
+				} else {
+					obs = append(obs, core.Ob(rule, key, p.Pos(x.Pos()), core.FuncName(fn), core.Held, ""))
+				}
+			case *ssa.Store:
+				n, f, _, ok := core.FieldRef(x.Addr)
+				if !ok || n != recv || !isLabelsList(x.Val.Type()) {
+					return
+				}
+				key := fmt.Sprintf("%s.%s assigned in %s", recv.Obj().Name(), f, fn.Name())
+				// an empty initial value that is grown later in the same function is not an announcement
+				grown := false
+				core.EachInstr(fn, func(b2 *ssa.BasicBlock, i2 int, y ssa.Instruction) {
+					if st2, ok := y.(*ssa.Store); ok && st2 != x && core.SameExpr(st2.Addr, x.Addr) && (core.Reaches(x.Block(), st2.Block()) || (st2.Block() == x.Block() && core.InstrIndex(st2) > core.InstrIndex(x))) {
+						grown = true
+					}
+				})
+				if emptyLiteral(x.Val) && !grown {
+					obs = append(obs, core.Ob(rule, key, p.Pos(x.Pos()), core.FuncName(fn), core.Violated, "the announced series list is set to a constant empty list on this path while the operator still emits samples on it"))
+				} else {
+					obs = append(obs, core.Ob(rule, key, p.Pos(x.Pos()), core.FuncName(fn), core.Held, ""))
+				}
+			}
+		})
+	}
+	return obs
+}
+
+func ruleTableTimestamp(p *core.Program) []core.Obligation {
+	const rule = "R-TABLETS"
+	var obs []core.Obligation
+	for _, tn := range []string{"scalarTable", "vectorTable"} {
+		fn := p.Func("execution/aggregate", tn+".aggregate")
+		key := tn + ".aggregate records the step timestamp unconditionally"
+		if fn == nil {
+			obs = append(obs, core.Ob(rule, key, "-", "", core.Lost, "method not found"))
+			continue
+		}
+		var store ssa.Instruction
+		core.EachInstr(fn, func(b *ssa.BasicBlock, i int, ins ssa.Instruction) {
+			st, ok := ins.(*ssa.Store)
+			if !ok {
+				return
+			}
+			if n, f, _, ok := core.FieldRef(st.Addr); ok && n != nil && n.Obj().Name() == tn && f == "timestamp" {
+				fromT := false
+				core.BackSlice(st.Val, func(v ssa.Value) bool {
+					if _, f2, _, ok := core.FieldRef(v); ok && f2 == "T" {
+						fromT = true
+					}
+					return true
+				})
+				if fromT && (store == nil || core.InstrDominates(st, store)) {
+					store = st
+				}
+			}
+		})
+		if store != nil && allReturnsAfter(fn, store) {
+			obs = append(obs, core.Ob(rule, key, p.Pos(store.Pos()), core.FuncName(fn), core.Held, "the store dominates every return"))
+		} else {
+			obs = append(obs, core.Ob(rule, key, p.Pos(fn.Pos()), core.FuncName(fn), core.Violated, "the table's timestamp is only set on paths that saw a sample: the empty result of a step without input is stamped with an earlier step's time"))
+		}
+	}
+	return obs
+}
+
+func rulePoint0(p *core.Program) []core.Obligation {
+	const rule = "R-POINT0"
+	var obs []core.Obligation
+	for _, fn := range p.Funcs {
+		if core.Rel(fn.Pkg.Pkg.Path()) != "engine" {
+			continue
+		}
+		k := 0
+		core.EachInstr(fn, func(b *ssa.BasicBlock, i int, ins ssa.Instruction) {
+			ia, ok := ins.(*ssa.IndexAddr)
+			if !ok {
+				return
+			}
+			if c, ok := core.ConstInt(ia.Index); !ok || c != 0 {
+				return
+			}
+			a := core.Deref(ia.X)
+			if a == nil {
+				return
+			}
+			if _, f, _, ok := core.FieldRef(a); !ok || f != "Points" {
+				return
+			}
+			k++
+			key := fmt.Sprintf("%s reads Points[0] #%d", core.FuncName(fn), k)
+			if lenGuarded(fn, ia.X, ia) {
+				obs = append(obs, core.Ob(rule, key, p.Pos(ia.Pos()), core.FuncName(fn), core.Held, "behind a length test of the same Points"))
+			} else {
+				obs = append(obs, core.Ob(rule, key, p.Pos(ia.Pos()), core.FuncName(fn), core.Violated, "Points[0] of a result series is read without a length test: a series that was announced but received no sample makes the result assembly panic"))
+			}
+		})
+	}
+	return obs
+}
